@@ -109,6 +109,8 @@ type Session struct {
 	Gate    func(s *Session, kind int, key *fkey) // nil = sequential
 	Visible func(kind int) bool                   // journal filter (race mode hides begin/prepare)
 	Misuse  string
+	// kind of the operation the injected failure hit (-1: not reached)
+	FaultedKind int
 }
 
 // op journals one driver operation and decides whether it fails by injection.
@@ -126,6 +128,7 @@ func (s *Session) op(kind int, key *fkey) error {
 	n := s.NOps
 	s.NOps++
 	if n == s.Fault {
+		s.FaultedKind = kind
 		return errInjected
 	}
 	return nil
